@@ -72,6 +72,7 @@ def unlimited_rule(before_dims, out, ioapi):
 
 
 def run(spec, res):
+    ops.OPTIONS['zipped'] = True
     f = build(spec['file'])
     ioapi = 'ioapi' in spec['file']
     res.facet('file:ioapi' if ioapi else 'file:core')
